@@ -230,6 +230,7 @@ def parseEv (toks : List String) : Option Ev :=
       | _, _ => none
   | ["in", "dev", h] => (Hex.bytesOfHex h).map (fun b => .input (.dev b))
   | ["in", "fault"] => some (.input .fault)
+  | ["in", "wfault"] => some (.input .wfault)
   | ["in", "startR"] => some (.input .startR)
   | ["in", "publish"] => some (.input .publish)
   | ["out", "write", h] => (Hex.strOfHex h).map (fun x => .output (.write x))
